@@ -554,13 +554,13 @@ theorem whenGroups_inv (ext : List Lbl) (S : Nat) (u : Lbl) (i ng : Nat) (thenG 
       (by simp [Prim.isPrimitive]) (by simp [Prim.targets]) (by simp [chunkOK])
     have B := winv_of_inv _ S u c _ (whenClause_ok (("when_end_label_", S) :: ("when_else_label_", S) :: ext) cl c)
     have C1 := winv_chunk (("when_end_label_", S) :: ("when_else_label_", S) :: ext) S u (whenClause cl c).2
-      [.goto ("case_" ++ caseLetter i ++ "_label_", S), .label ("case_" ++ caseLetter i ++ "_label_", S), .merge u, .catchFail none,
+      [.jump ("case_" ++ caseLetter i ++ "_label_", S), .label ("case_" ++ caseLetter i ++ "_label_", S), .merge u, .catchFail none,
        .endScope ("scope_", S)]
       (by simp [Prim.isPrimitive]) (by simp [Prim.targets]) (by simp [chunkOK])
     have D := winv_ext _ _ S u _ _ (winv_of_inv ext S u _ _ (hthen (whenClause cl c).2)) hsub
     have C2 := winv_chunk (("when_end_label_", S) :: ("when_else_label_", S) :: ext) S u (thenG (whenClause cl c).2).2
-      [.goto ("when_end_label_", S), .label ("failure_case_" ++ caseLetter i ++ "_label_", S), .waitHeads ng, .catchFail none,
-       .goto ("when_else_label_", S)]
+      [.jump ("when_end_label_", S), .label ("failure_case_" ++ caseLetter i ++ "_label_", S), .waitHeads ng, .catchFail none,
+       .jump ("when_else_label_", S)]
       (by simp [Prim.isPrimitive]) (by simp [Prim.targets]) (by simp [chunkOK])
     refine ⟨winv_append _ _ _ _ _ _ _ _ (winv_append _ _ _ _ _ _ _ _ (winv_append _ _ _ _ _ _ _ _
       (winv_append _ _ _ _ _ _ _ _ (winv_append _ _ _ _ _ _ _ _ A B) C1) D) C2) ihw, ?_, ?_⟩
@@ -588,7 +588,7 @@ theorem whenElse_inv (ext : List Lbl) (S : Nat) (u : Lbl) (ncases : Nat) (hasEls
     exact ⟨winv_append _ _ _ _ _ _ _ _ (winv_append _ _ _ _ _ _ _ _ A B) C, by simp, by simp, by simp⟩
   | true =>
     simp only [if_true]
-    have B := winv_chunk ext S u c [.goto ("when_else_statement_label_", S), .label ("when_else_statement_label_", S)]
+    have B := winv_chunk ext S u c [.jump ("when_else_statement_label_", S), .label ("when_else_statement_label_", S)]
       (by simp [Prim.isPrimitive]) (by simp [Prim.targets]) (by simp [chunkOK])
     have D := winv_of_inv ext S u c _ (helse c)
     have C := winv_chunk ext S u (elseG c).2 [.label ("when_end_label_", S)] (by simp [Prim.isPrimitive]) (by simp [Prim.targets]) (by simp [chunkOK])
@@ -725,10 +725,10 @@ theorem inv_resolve (a : Lbl) (ext : List Lbl) (c : Nat) (r : List (Prim Lbl) ×
     label uids lie in `[c, c0)` and whose targets are in `ext'` -/
 theorem inv_frame (ext' : List Lbl) (c c0 : Nat) (pre post : List (Prim Lbl)) (body : List (Prim Lbl) × Nat)
     (hb : Inv ext' c0 body) (hc : c ≤ c0)
-    (hpre : ∀ e ∈ pre ++ post, (∃ l, e = .goto l ∧ l ∈ ext') ∨ (∃ l, e = .label l ∧ c ≤ l.2 ∧ l.2 < body.2)) :
+    (hpre : ∀ e ∈ pre ++ post, (∃ l, (e = .goto l ∨ e = .jump l) ∧ l ∈ ext') ∨ (∃ l, e = .label l ∧ c ≤ l.2 ∧ l.2 < body.2)) :
     Inv ext' c (pre ++ body.1 ++ post, body.2) := by
   have m := hb.mono
-  have chk : ∀ (ps : List (Prim Lbl)), (∀ e ∈ ps, (∃ l, e = Prim.goto l ∧ l ∈ ext') ∨ (∃ l, e = Prim.label l ∧ c ≤ l.2 ∧ l.2 < body.2)) →
+  have chk : ∀ (ps : List (Prim Lbl)), (∀ e ∈ ps, (∃ l, (e = Prim.goto l ∨ e = Prim.jump l) ∧ l ∈ ext') ∨ (∃ l, e = Prim.label l ∧ c ≤ l.2 ∧ l.2 < body.2)) →
       ∀ s, mergeForkOK s ps = true ∧ scopeOpenedOK s ps = true ∧ scopeClosedOK ps = true := by
     intro ps
     induction ps with
@@ -736,35 +736,37 @@ theorem inv_frame (ext' : List Lbl) (c c0 : Nat) (pre post : List (Prim Lbl)) (b
     | cons e r ih =>
       intro h s
       have := ih (fun x hx => h x (List.mem_cons_of_mem _ hx)) s
-      rcases h e (by simp) with ⟨l, rfl, _⟩ | ⟨l, rfl, _⟩ <;> simpa [mergeForkOK, scopeOpenedOK, scopeClosedOK] using this
+      rcases h e (by simp) with ⟨l, (rfl | rfl), _⟩ | ⟨l, rfl, _⟩ <;> simpa [mergeForkOK, scopeOpenedOK, scopeClosedOK] using this
   have cpre := chk pre (fun e he => hpre e (List.mem_append_left _ he))
   have cpost := chk post (fun e he => hpre e (List.mem_append_right _ he))
   refine ⟨by simp only; omega, ?_, ?_, ?_, ?_, ?_, ?_⟩
   · intro e he
     simp only [List.mem_append] at he
     rcases he with (he | he) | he
-    · rcases hpre e (List.mem_append_left _ he) with ⟨l, rfl, _⟩ | ⟨l, rfl, _⟩ <;> rfl
+    · rcases hpre e (List.mem_append_left _ he) with ⟨l, (rfl | rfl), _⟩ | ⟨l, rfl, _⟩ <;> rfl
     · exact hb.prim e he
-    · rcases hpre e (List.mem_append_right _ he) with ⟨l, rfl, _⟩ | ⟨l, rfl, _⟩ <;> rfl
+    · rcases hpre e (List.mem_append_right _ he) with ⟨l, (rfl | rfl), _⟩ | ⟨l, rfl, _⟩ <;> rfl
   · intro e he t ht
     simp only [List.mem_append] at he ⊢
     rcases he with (he | he) | he
-    · rcases hpre e (List.mem_append_left _ he) with ⟨l, rfl, hl⟩ | ⟨l, rfl, _⟩
+    · rcases hpre e (List.mem_append_left _ he) with ⟨l, (rfl | rfl), hl⟩ | ⟨l, rfl, _⟩
+      · simp [Prim.targets] at ht; subst ht; exact Or.inr hl
       · simp [Prim.targets] at ht; subst ht; exact Or.inr hl
       · simp [Prim.targets] at ht
     · exact (hb.tgt e he t ht).imp (fun h => Or.inl (Or.inr h)) id
-    · rcases hpre e (List.mem_append_right _ he) with ⟨l, rfl, hl⟩ | ⟨l, rfl, _⟩
+    · rcases hpre e (List.mem_append_right _ he) with ⟨l, (rfl | rfl), hl⟩ | ⟨l, rfl, _⟩
+      · simp [Prim.targets] at ht; subst ht; exact Or.inr hl
       · simp [Prim.targets] at ht; subst ht; exact Or.inr hl
       · simp [Prim.targets] at ht
   · intro t ht
     simp only [List.mem_append] at ht
     rcases ht with (ht | ht) | ht
     · rcases hpre _ (List.mem_append_left _ ht) with ⟨l, h, _⟩ | ⟨l, h, h1, h2⟩
-      · cases h
+      · rcases h with h | h <;> cases h
       · cases h; simp only; omega
     · have := hb.fresh t ht; simp only at this ⊢; omega
     · rcases hpre _ (List.mem_append_right _ ht) with ⟨l, h, _⟩ | ⟨l, h, h1, h2⟩
-      · cases h
+      · rcases h with h | h <;> cases h
       · cases h; simp only; omega
   · exact mergeForkOK_append _ _ _ (mergeForkOK_append _ _ _ (cpre []).1 hb.mf) (cpost []).1
   · exact scopeOpenedOK_append _ _ _ (scopeOpenedOK_append _ _ _ (cpre []).2.1 hb.so) (cpost []).2.1
@@ -783,17 +785,17 @@ theorem inv_jump (ext : List Lbl) (c : Nat) (e : Prim Lbl) (he : (∃ o, e = .br
 theorem while_inv (ext : List Lbl) (c : Nat) (body : List (Prim Lbl) × Nat)
     (hb : Inv [("_while_begin_", c), ("_while_end_", c)] (c + 1) body) :
     Inv ext c ([.label ("_while_begin_", c), .goto ("_while_end_", c)] ++ body.1 ++
-      [.goto ("_while_begin_", c), .label ("_while_end_", c)], body.2) := by
+      [.jump ("_while_begin_", c), .label ("_while_end_", c)], body.2) := by
   have m := hb.mono
   have f := inv_frame [("_while_begin_", c), ("_while_end_", c)] c (c + 1)
-    [.label ("_while_begin_", c), .goto ("_while_end_", c)] [.goto ("_while_begin_", c), .label ("_while_end_", c)] body hb (by omega)
+    [.label ("_while_begin_", c), .goto ("_while_end_", c)] [.jump ("_while_begin_", c), .label ("_while_end_", c)] body hb (by omega)
     (by
       intro e he
       simp only [List.cons_append, List.nil_append, List.mem_cons, List.not_mem_nil, or_false] at he
       rcases he with rfl | rfl | rfl | rfl
       · exact Or.inr ⟨_, rfl, by simp only; omega⟩
-      · exact Or.inl ⟨_, rfl, by simp⟩
-      · exact Or.inl ⟨_, rfl, by simp⟩
+      · exact Or.inl ⟨_, Or.inl rfl, by simp⟩
+      · exact Or.inl ⟨_, Or.inr rfl, by simp⟩
       · exact Or.inr ⟨_, rfl, by simp only; omega⟩)
   have r1 := inv_resolve _ _ _ _ f (by simp)
   have r2 := inv_resolve _ _ _ _ r1 (by simp)
@@ -808,26 +810,26 @@ theorem if_inv_noelse (ext : List Lbl) (c : Nat) (te : List (Prim Lbl) × Nat) (
       intro e he
       simp only [List.cons_append, List.nil_append, List.mem_cons, List.not_mem_nil, or_false] at he
       rcases he with rfl | rfl
-      · exact Or.inl ⟨_, rfl, by simp⟩
+      · exact Or.inl ⟨_, Or.inl rfl, by simp⟩
       · exact Or.inr ⟨_, rfl, by simp only; omega⟩)
   exact inv_resolve _ _ _ _ f (by simp)
 
 theorem if_inv_else (ext : List Lbl) (c : Nat) (te fe : List (Prim Lbl) × Nat) (ht : Inv ext (c + 2) te)
     (hf : Inv ext te.2 fe) :
     Inv ext c ([.goto ("if_else_body_label_", c)] ++ te.1 ++
-      [.goto ("if_end_label_", c + 1), .label ("if_else_body_label_", c)] ++ fe.1 ++ [.label ("if_end_label_", c + 1)], fe.2) := by
+      [.jump ("if_end_label_", c + 1), .label ("if_else_body_label_", c)] ++ fe.1 ++ [.label ("if_end_label_", c + 1)], fe.2) := by
   have m1 := ht.mono; have m2 := hf.mono
   have hsub : ∀ l ∈ ext, l ∈ ("if_end_label_", c + 1) :: ("if_else_body_label_", c) :: ext :=
     fun l hl => List.mem_cons_of_mem _ (List.mem_cons_of_mem _ hl)
   have f1 := inv_frame (("if_end_label_", c + 1) :: ("if_else_body_label_", c) :: ext) c (c + 2)
-    [.goto ("if_else_body_label_", c)] [.goto ("if_end_label_", c + 1), .label ("if_else_body_label_", c)] te
+    [.goto ("if_else_body_label_", c)] [.jump ("if_end_label_", c + 1), .label ("if_else_body_label_", c)] te
     (inv_ext_mono _ _ hsub _ _ ht) (by omega)
     (by
       intro e he
       simp only [List.cons_append, List.nil_append, List.mem_cons, List.not_mem_nil, or_false] at he
       rcases he with rfl | rfl | rfl
-      · exact Or.inl ⟨_, rfl, by simp⟩
-      · exact Or.inl ⟨_, rfl, by simp⟩
+      · exact Or.inl ⟨_, Or.inl rfl, by simp⟩
+      · exact Or.inl ⟨_, Or.inr rfl, by simp⟩
       · exact Or.inr ⟨_, rfl, by simp only; omega⟩)
   have both := inv_append _ _ _ _ _ _ f1 (inv_ext_mono _ _ hsub _ _ hf)
   have f2 := inv_frame (("if_end_label_", c + 1) :: ("if_else_body_label_", c) :: ext) c c [] [.label ("if_end_label_", c + 1)]
